@@ -399,8 +399,10 @@ class PriorityTask(Task, BasePriorityObject):  # type: ignore[type-arg]
                 loop.task_reschedule(self)  # type: ignore[attr-defined]
             except AttributeError:  # pragma: no cover
                 pass
-        elif self._waiting_on:
-            # it is waiting for a lock
+        if self._waiting_on:
+            # it is waiting for a lock - or it is runnable but still queued on one (a
+            # cancelled, interrupted or woken waiter which has not run yet): its entry still
+            # counts towards the effective priority of the lock's owner, so pass it on.
             try:
                 self._waiting_on.propagate_priority(self)
             except AttributeError:  # pragma: no cover
